@@ -3,7 +3,7 @@ import importlib
 import os
 import traceback
 
-REPO_SRC = os.path.realpath("/repo/src")
+REPO_SRC = os.path.realpath(os.environ.get("VERIF_REPO_SRC") or "/repo/src")
 NOTES = []
 _TRACING_ASSUME = [None]  # set by engine.explore: raises IgnoreAttempt under tracing
 
